@@ -322,10 +322,17 @@ func runFaultCase(c faultCase) (key, desc string, hung bool, classes []string) {
 		}
 		return
 	}
-	flushAll := func() {
-		for _, b := range bks {
-			b.flush()
+	// flushAll returns, per backend, how many connections arrived since the last call
+	flushAll := func() []int {
+		got := make([]int, len(bks))
+		for i, b := range bks {
+			got[i] = b.flush()
 		}
+		return got
+	}
+	dialTimeout := 5 * time.Second
+	if strings.Contains(strings.Join(c.Backends, ","), "blackhole") {
+		dialTimeout = 300 * time.Millisecond // every dial of a blackhole backend takes this long
 	}
 	// check runs at a quiescent point
 	check := func(when string) (string, string) {
@@ -373,6 +380,10 @@ func runFaultCase(c faultCase) (key, desc string, hung bool, classes []string) {
 			cl.buf, cl.bufErr = []byte{1, 2, 3}, errScriptedReadBuffered
 		case "bigbuf":
 			cl.buf = make([]byte, bigFlush)
+		case "ctx-cancelled":
+			ctx, cancel := context.WithCancel(context.Background())
+			cancel()
+			cl.ctx = ctx
 		}
 		if hasReset && script == "bigbuf" {
 			// every backend that can be dialled in this configuration resets: wait until the RST is out
@@ -389,7 +400,7 @@ func runFaultCase(c faultCase) (key, desc string, hung bool, classes []string) {
 		ctxCopy := *hctx
 		go func() {
 			defer close(run.done)
-			Forward(5*time.Second, routes, logr.Discard(), cl, &hsCopy, &ctxCopy, sm)
+			Forward(dialTimeout, routes, logr.Discard(), cl, &hsCopy, &ctxCopy, sm)
 		}()
 		select {
 		case <-run.done:
@@ -401,7 +412,20 @@ func runFaultCase(c faultCase) (key, desc string, hung bool, classes []string) {
 			_ = cl.Close()
 			return "", c.String() + ": did not reach a quiescent point within 60 s", true, classes
 		}
-		flushAll()
+		arrived := flushAll()
+		if !run.open && (script == "nobuf" || script == "smallbuf") {
+			// A healthy client whose attempt failed: "the attempt fails only after every backend failed", so every
+			// backend that can see a dial (it listens) has seen one. (Judged on what reached the listeners, not on
+			// the dial timeout: a dial that the kernel completed but the dialer gave up on still counts as tried.)
+			for j, b := range bks {
+				if b.ln != nil && arrived[j] == 0 {
+					for _, r := range runs {
+						_ = r.cl.Close()
+					}
+					return "forward/gave-up-before-every-backend-was-tried", fmt.Sprintf("%s: connection #%d ended without a forwarded connection although backend #%d (%s) was never dialled (connections that arrived per backend: %v)", c, i+1, j, b.kind, arrived), false, classes
+				}
+			}
+		}
 		if k, d := check(fmt.Sprintf("after connection #%d reached %s", i+1, map[bool]string{true: "an open pipe", false: "its end"}[run.open])); k != "" {
 			for _, r := range runs {
 				_ = r.cl.Close()
